@@ -28,6 +28,9 @@ Section Discover.
   Variable content : string -> list string.   (* lines of an ignore file *)
   Variable hard : bool.   (* true: VCS metadata directories are never entered, whatever the filter says (the repaired code);
                              false: they are excluded through the filter only (as pinned) *)
+  Variable defer : bool.  (* true: whether a child directory is ignored is decided when it is visited, once its parent's own ignore
+                             files are in the filter (the repaired code); false: already while its parent is listed (as pinned) *)
+  Variable orig : bool.   (* true: the origin itself is never checked against the filter (the repaired code) *)
 
   Definition as_ifile (f : dfile) : ifile := (d_in f, content (d_path f)).
 
@@ -87,7 +90,7 @@ Section Discover.
                  let c := fst e in
                  if must_skip base (t_skip t) c then t else
                  match snd e with
-                 | KDir => if (hard && vcs_dir c) || negb (check_dir gm true (t_filter t) c) then do_skip t c
+                 | KDir => if (hard && vcs_dir c) || (negb defer && negb (check_dir gm true (t_filter t) c)) then do_skip t c
                            else mkT (t_visit t ++ [c]) (t_skip t) (t_filter t) (t_files t)
                  | _ => t
                  end) (children fs dir) t.
@@ -99,7 +102,7 @@ Section Discover.
     | p :: rest_rev =>
         let t1 := mkT (rev rest_rev) (t_skip t) (t_filter t) (t_files t) in
         if must_skip base (t_skip t1) p then t1
-        else if negb (check_dir gm true (t_filter t1) p) then do_skip t1 p
+        else if negb (orig && String.eqb p base) && negb (check_dir gm true (t_filter t1) p) then do_skip t1 p
         else if negb (watch_related watches p) then do_skip t1 p
         else match fs_get fs p with
              | Some KDir => discover_in fs p (enum_children fs base p t1)
